@@ -272,11 +272,13 @@ fn main() {
                 .unwrap_or_else(|| vec!["format".to_string()]);
             let mut inp = Vec::new();
             let mut imp = Vec::new();
+            let mut flog: Vec<String> = Vec::new();
             let mut nruns = 0;
             for id in 0..n {
                 let kind = &kinds[id % kinds.len()];
                 let case = if kind == "format" {
-                    seq::gen_case(seed, id, seq::Profile::General, nops)
+                    // every other self-formatted case: many L1 entries (second block of the L1 table)
+                    seq::gen_case(seed, id, if id % 12 == 6 { seq::Profile::Sparse } else { seq::Profile::General }, nops)
                 } else {
                     seq::gen_built_case(seed, id, seq::Profile::General, nops, kind)
                 };
@@ -323,6 +325,12 @@ fn main() {
                 // random multi-request subsets and punch-unsupported
                 let multi: Vec<usize> = (0..total).filter(|_| rng.chance(1, 6)).collect();
                 variants.push((format!("multi:{}", multi.len()), multi, false));
+                // the backend is down for a few consecutive requests
+                for _ in 0..2 {
+                    let a = rng.below(total as u64) as usize;
+                    let burst: Vec<usize> = (a..(a + rng.range(2, 4) as usize).min(total)).collect();
+                    variants.push((format!("burst:{}+{}", a, burst.len()), burst, false));
+                }
                 variants.push(("punch-unsupported".into(), vec![], true));
                 for (vi, (vname, fails, punch)) in variants.into_iter().enumerate() {
                     let mut c2 = case.clone();
@@ -360,10 +368,17 @@ fn main() {
                     let fired = r.files[0].0.borrow().log.iter().filter(|q| q.failed).count();
                     imp.push(format!("faults fired={} variant={}", fired, vname));
                     imp.push("end".into());
+                    // the request log of the runs without hole punching (zero-write fallback): C16
+                    if punch {
+                        flog.push(format!("case {}", c2.id));
+                        flog.extend(seq::log_lines(&r.files));
+                        flog.push("end".into());
+                    }
                 }
             }
             write_lines(&format!("{}/seq.in", out), &inp);
             write_lines(&format!("{}/seq.impl", out), &imp);
+            write_lines(&format!("{}/seq.log", out), &flog);
             println!("fault runs={}", nruns);
         }
         "malformed" => {
@@ -570,7 +585,7 @@ fn main() {
                     let mut step = 0usize;
                     let mut broken = false;
                     for (b, ops) in batches.iter().enumerate() {
-                        let r = conc::run_batch(&dev, &files, ops, &mut rng, sc % 2 == 1, step);
+                        let r = conc::run_batch(&dev, &files, ops, &mut rng, sc % 3, step);
                         step = r.steps + 1;
                         lines.push(format!("batch {}", b));
                         for (i, t) in r.tasks.iter().enumerate() {
